@@ -1144,7 +1144,21 @@ fn random_case(ctx: &mut Ctx, rng: &mut Rng, data: &[Option<SpecData>]) {
     }
     // messages
     let base = unhex(&c.base);
-    let (bytes, mode): (Vec<u8>, &'static str) = match rng.below(10) {
+    let (bytes, mode): (Vec<u8>, &'static str) = match rng.below(11) {
+        10 if c.kind != Kind::Connless => {
+            // the id of a valid message replaced by a negative integer: the
+            // descriptions know ordinals >= 1 and 0 + UUID only
+            let neg = match rng.below(4) {
+                0 => -1,
+                1 => -2,
+                2 => -(rng.range(1, 300) as i32),
+                _ => rng.edgy_i32() | i32::MIN,
+            };
+            let skip = varint::decode(&base).map(|d| d.consumed).unwrap_or(0);
+            let mut b = varint::encode(neg);
+            b.extend_from_slice(&base[skip..]);
+            (b, "negative-id")
+        }
         0 | 1 | 2 => {
             let mut b = c.prefix.clone();
             let len = match rng.below(4) {
@@ -1197,6 +1211,14 @@ fn random_case(ctx: &mut Ctx, rng: &mut Rng, data: &[Option<SpecData>]) {
                 Ok(d) => {
                     ctx.count("random_decode_ok", 1);
                     ctx.seen(&format!("random_decoded_{}", crate_name), &format!("{}:{}", d.variant, d.name));
+                    if c.kind != Kind::Connless {
+                        if let Some(id) = varint::decode(&bytes) {
+                            if id.value < 0 && !id.padding_nonzero {
+                                ctx.violation("accepted", &format!("crate={}|message-id", crate_name), "negative-id-accepted",
+                                    json!({"id": id.value, "decoded_as": format!("{}:{}", d.variant, d.name)}), case_data.clone());
+                            }
+                        }
+                    }
                     match &d.reenc {
                         Some(Reenc::Panic(p)) => {
                             // Re-encoding a value whose trailing optional is absent is asserted
